@@ -607,6 +607,12 @@ def drop_reason_frames(key, rng):
                               net.frame_udp(LP, LS, 65535, 65534, gens.dns_query()), net.frame_udp(LP, LS, 65535, 65535, CHG),
                               gens.echo6(LP, LS), gens.ns6(LP, LS, mac_dst=MS), gens.echo6(LP, LS, ty=200, code=255),
                               net.eth(MS, MP, 0x86DD, net.ipv6(LP, LS, 255, b"payload"))]))
+    big = gens.dns_query(names=tuple(b"q%d.example.org" % i for i in range(40)))
+    longstun = gens.stun_req(attrs=gens.stun_attr(0x8022, b"x" * 252) + gens.stun_attr(3, struct.pack("!I", 2)), magic=True)
+    out.append(("large-answers", [net.frame_udp(P4, S4, 5000, 53, big), net.frame_udp(P6, S6, 5000, 53, big),
+                                  gens.echo4(P4, S4, data=bytes(1600)), gens.echo6(P6, S6, data=bytes(1500))]))
+    out.append(("stun-change-port-tcp", gens.handshake(key, P4, S4, 4100, 3478, [longstun]) + gens.handshake(key, P6, S6, 4100, 65535, [longstun])
+                + [net.frame_udp(P4, S4, 4101, 65535, CHG)]))
     # --- layer 2: destination MAC
     macs = [MS, b"\xff" * 6, bytes.fromhex("333300000001"), bytes.fromhex("3333ff000001"), bytes.fromhex("01005e000001"),
             bytes.fromhex("01005e000002"), bytes.fromhex("3333ff000002"), bytes.fromhex("c0ffeec0ffef"), b"\0" * 6, MP]
